@@ -36,19 +36,19 @@ func init() { deadlock.Opts.Disable = true }
 
 // Config of one run (drawn from the tape, swarm style).
 type Config struct {
-	Prop, Tier     string
-	Rounds         int
-	MaxGroups      int
-	Online         int
-	MaxAcctLookback uint64
-	DisableLRU     bool
-	Engine         string
-	WCrash, WReload int // per mille of steps
-	Intx            bool // C09: half of the park faults land INSIDE the storage transactions (crash there / fault there)
-	WPark           int // per mille of steps: park the block write / tracker commit at a named site, then crash there or query meanwhile
-	SleepPct       int
-	QueriesPerStep int
-	AddBlockPct    int // share of blocks added with AddBlock (re-evaluated inside the ledger) instead of AddValidatedBlock
+	Prop, Tier         string
+	Rounds             int
+	MaxGroups          int
+	Online             int
+	MaxAcctLookback    uint64
+	DisableLRU         bool
+	Engine             string
+	WCrash, WReload    int  // per mille of steps
+	Intx               bool // C09: half of the park faults land INSIDE the storage transactions (crash there / fault there)
+	WPark              int  // per mille of steps: park the block write / tracker commit at a named site, then crash there or query meanwhile
+	SleepPct           int
+	QueriesPerStep     int
+	AddBlockPct        int // share of blocks added with AddBlock (re-evaluated inside the ledger) instead of AddValidatedBlock
 	CatchpointInterval uint64
 }
 
@@ -76,12 +76,12 @@ type Sim struct {
 
 	observers []Observer
 	park      *parkCtl
-	stats   map[string]int64
-	stateDg map[string]bool
-	viol    *kernel.Violation
-	known   []kernel.Violation
-	harness string
-	step    int
+	stats     map[string]int64
+	stateDg   map[string]bool
+	viol      *kernel.Violation
+	known     []kernel.Violation
+	harness   string
+	step      int
 }
 
 func (s *Sim) stat(k string, d int64) { s.stats[k] += d }
